@@ -1,1 +1,112 @@
-// harness code mounted in serde_avro_fast (see DESIGN.md)
+// Mounted in serde_avro_fast::de::read — reader-layer differential harnesses (C11)
+use super::*;
+use crate::verif::{io::*, spec};
+
+/// position of the first byte without continuation bit (= varint length), or None
+fn varint_len(data: &[u8]) -> Option<usize> {
+	let mut i = 0;
+	while i < data.len() {
+		if data[i] & 0x80 == 0 {
+			return Some(i + 1);
+		}
+		i += 1;
+	}
+	None
+}
+
+/// class of inputs of known finding F1: a varint of more than `max` bytes (over-long for the
+/// 32-bit types) that the slice decoder accepts
+fn overlong_for(data: &[u8], max: usize) -> bool {
+	match varint_len(data) {
+		Some(n) => n > max,
+		None => false,
+	}
+}
+
+fn rd_varint_diff<I: VarInt + PartialEq + Copy>(restrict: Option<bool>, max32: usize) {
+	let data: [u8; 11] = kani::any();
+	let len: usize = kani::any();
+	kani::assume(len <= 11);
+	let chunk: usize = kani::any();
+	kani::assume(chunk >= 1 && chunk <= 11);
+	let s = &data[..len];
+	match restrict {
+		Some(true) => kani::assume(overlong_for(s, max32)),
+		Some(false) => kani::assume(!overlong_for(s, max32)),
+		None => {}
+	}
+	let mut sr = SliceRead::new(s);
+	let a = <SliceRead as Read>::read_varint::<I>(&mut sr);
+	let a_used = len - sr.slice.len();
+	let mut rr = ReaderRead::new(Chunked::new(s, chunk));
+	let b = <ReaderRead<Chunked> as Read>::read_varint::<I>(&mut rr);
+	let b_used = rr.reader.consumed();
+	kani::cover!(a.is_ok() && chunk == 1 && a_used > 2);
+	kani::cover!(a.is_err() && len > 0);
+	kani::cover!(a.is_ok() && a_used > chunk);
+	match (&a, &b) {
+		(Ok(x), Ok(y)) => {
+			assert!(*x == *y, "c11_rd_varint: slice and reader decode different values");
+			assert!(a_used == b_used, "c11_rd_varint: slice and reader consume different lengths");
+		}
+		(Err(_), Err(_)) => {}
+		(Ok(_), Err(_)) => assert!(false, "c11_rd_varint: slice Ok but chunked reader Err"),
+		(Err(_), Ok(_)) => assert!(false, "c11_rd_varint: slice Err but chunked reader Ok"),
+	}
+	std::mem::forget(a);
+	std::mem::forget(b);
+}
+
+// @harness props=C11 tier=quick timeout=900
+// @bound i64: all inputs of <= 11 bytes x every uniform refill size 1..=11; unwind 13 >= 11 bytes + 2
+#[kani::proof]
+#[kani::unwind(13)]
+#[kani::stub(alloc::fmt::format, crate::verif::stub_format)]
+fn c11_rd_varint_i64() {
+	rd_varint_diff::<i64>(None, 10);
+}
+
+// @harness props=C11 tier=quick timeout=900
+// @bound u64 (used when skipping): all inputs of <= 11 bytes x every uniform refill size 1..=11
+#[kani::proof]
+#[kani::unwind(13)]
+#[kani::stub(alloc::fmt::format, crate::verif::stub_format)]
+fn c11_rd_varint_u64() {
+	rd_varint_diff::<u64>(None, 10);
+}
+
+// @harness props=C11 tier=quick timeout=900
+// @bound i32: all inputs of <= 11 bytes whose first varint is at most 5 bytes long (or unterminated) x every refill size 1..=11
+#[kani::proof]
+#[kani::unwind(13)]
+#[kani::stub(alloc::fmt::format, crate::verif::stub_format)]
+fn c11_rd_varint_i32() {
+	rd_varint_diff::<i32>(Some(false), 5);
+}
+
+// @harness props=C11 tier=quick timeout=900 finding=F1
+// @bound i32: the complementary class: first varint 6..=11 bytes long (over-long encodings the slice path accepts) x every refill size
+#[kani::proof]
+#[kani::unwind(13)]
+#[kani::stub(alloc::fmt::format, crate::verif::stub_format)]
+fn c11_rd_varint_i32_overlong() {
+	rd_varint_diff::<i32>(Some(true), 5);
+}
+
+// @harness props=C11 tier=quick timeout=900
+// @bound u32 (used when skipping an int): varint at most 5 bytes or unterminated x every refill size 1..=11
+#[kani::proof]
+#[kani::unwind(13)]
+#[kani::stub(alloc::fmt::format, crate::verif::stub_format)]
+fn c11_rd_varint_u32() {
+	rd_varint_diff::<u32>(Some(false), 5);
+}
+
+// @harness props=C11 tier=quick timeout=900 finding=F1
+// @bound u32: the complementary over-long class (6..=11 byte varints)
+#[kani::proof]
+#[kani::unwind(13)]
+#[kani::stub(alloc::fmt::format, crate::verif::stub_format)]
+fn c11_rd_varint_u32_overlong() {
+	rd_varint_diff::<u32>(Some(true), 5);
+}
